@@ -102,6 +102,14 @@ def check_design(text):
                 if n not in decl:
                     problems.append(('undeclared', 'module %s: identifier `%s` is used in %s but never declared' % (m.name, n, what)))
 
+        for p in m.params:
+            if len(p) > 3 and p[3] is not None:
+                # the default of a header parameter is a constant expression of this module: only its own parameters may appear in it
+                for n in vlog.idents(p[3]):
+                    if decl.get(n) != 'parameter' or n == p[1]:
+                        problems.append(('undeclared', 'module %s: the default value of parameter `%s` uses `%s`, which is not a%s parameter of this module'
+                                         % (m.name, p[1], n, 'nother' if n == p[1] else '')))
+
         def drive(lhs, how):
             base = lhs
             while base[0] in ('idx', 'slice'):
